@@ -86,6 +86,7 @@ func (p *Pubrec) Unpack(r io.Reader) error {
 		}
 		return p.Properties.Unpack(bufr, PUBREC)
 	}
-	return nil
+	// a v3 acknowledgement is exactly the packet identifier
+	return codes.ErrMalformed
 
 }
